@@ -12,6 +12,8 @@ Template directives (each on its own line):
      //@ loop N              lines inserted before the body '{' of the N-th loop (1-based)
      //@ before ANCHOR       lines inserted before the (unique) occurrence of ANCHOR in the body
      //@ after ANCHOR        lines inserted after it
+     //@ then_end IFHEAD     lines inserted at the end of the then-block of the (unique) `if` whose head text is IFHEAD
+     //@ else_end IFHEAD     ... at the end of its else-block (then_start / else_start: at the beginning)
      //@ body_start          lines inserted right after the body '{'
      //@ body_end            lines inserted right before the body's closing '}' (only for bodies without a tail expression)
        (anchors are matched against the body text *after* rewrites)
@@ -137,6 +139,23 @@ def splice_fn(repo, rel, path, sections, opts, log, meta):
                     raise SpliceError("%s: anchor `%s` occurrence %d not found (%d hits)" % (path, arg, occ, len(hits)))
                 h = hits[occ - 1]
             inserts.append((h.start() if kind == "before" else h.end(), order, "\n" + text + "\n"))
+        elif kind in ("then_end", "else_end", "then_start", "else_start"):
+            hits = list(rs.anchor_regex(arg).finditer(body_plain))
+            if len(hits) != 1:
+                raise SpliceError("%s: if-anchor `%s` matches %d times (need exactly 1)" % (path, arg, len(hits)))
+            toks = rs.lex(body_plain)
+            # first '{' at/after the end of the anchor match = then-block
+            k = next((i for i, t in enumerate(toks) if t.s >= hits[0].end() and t.text == "{"), None)
+            if k is None:
+                raise SpliceError("%s: no block after if-anchor `%s`" % (path, arg))
+            c = rs.match_close(toks, k)
+            if kind.startswith("else"):
+                if c + 2 >= len(toks) or toks[c + 1].text != "else" or toks[c + 2].text != "{":
+                    raise SpliceError("%s: if-anchor `%s` has no plain else block" % (path, arg))
+                k = c + 2
+                c = rs.match_close(toks, k)
+            pos = toks[c].s if kind.endswith("_end") else toks[k].e
+            inserts.append((pos, order, "\n" + text + "\n"))
         elif kind == "body_start":
             inserts.append((1, order, "\n" + text + "\n"))
         elif kind == "body_end":
@@ -229,7 +248,11 @@ def splice_const(repo, rel, name, opts, log, meta):
     except rs.ScanError as e2:
         raise SpliceError("%s: %s" % (rel, e2))
     meta.append({"file": rel, "item": "const " + name, "repo_lines": [src.count("\n", 0, s) + 1, src.count("\n", 0, e) + 1], "name": name})
-    return src[s:e]
+    text = src[s:e]
+    if not re.match(r"\s*pub\b", text):
+        text = "pub " + text
+        log.append({"rule": "visibility", "fn": name, "where": "const", "before": "(private)", "after": "pub", "count": 1})
+    return text
 
 
 def sigcheck(repo, rel, path, want):
@@ -254,8 +277,31 @@ def _parse_opts(words):
     return o
 
 
-def build(template_text, repo):
-    """Returns (verus_source, rewrites_log, items_meta, fn_line_map)."""
+def _expand_includes(text, units_dir, depth=0):
+    if depth > 4:
+        raise SpliceError("include nesting too deep")
+    out = []
+    for ln in text.split("\n"):
+        m = re.match(r"^\s*//@@\s+include\s+(\S+)\s*$", ln)
+        if m:
+            p = os.path.join(units_dir, m.group(1))
+            try:
+                inc = open(p, encoding="utf-8").read()
+            except OSError as e:
+                raise SpliceError("include %s: %s" % (m.group(1), e))
+            out.append("// ---- begin include %s ----" % m.group(1))
+            out.append(_expand_includes(inc, units_dir, depth + 1))
+            out.append("// ---- end include %s ----" % m.group(1))
+        else:
+            out.append(ln)
+    return "\n".join(out)
+
+
+def build(template_text, repo, units_dir=None):
+    """Returns (verus_source, rewrites_log, items_meta).  `//@@ include <file relative to units/>` is expanded first."""
+    if units_dir is None:
+        units_dir = os.path.join(os.path.dirname(os.path.dirname(os.path.abspath(__file__))), "units")
+    template_text = _expand_includes(template_text, units_dir)
     lines = template_text.split("\n")
     out = []
     log, meta = [], []
@@ -291,7 +337,7 @@ def build(template_text, repo):
                         sections.append((k2, None, (mm.group(1), mm.group(2), mm.group(3))))
                     elif k2 == "ret":
                         sections.append(("ret", a2, None))
-                    elif k2 in ("spec", "attr", "loop", "before", "after", "body_start", "body_end"):
+                    elif k2 in ("spec", "attr", "loop", "before", "after", "body_start", "body_end", "then_end", "else_end", "then_start", "else_start"):
                         cur = (k2, a2, [])
                     else:
                         raise SpliceError("unknown directive: " + l2)
@@ -309,6 +355,33 @@ def build(template_text, repo):
             out.append(text)
             end_line = len("\n".join(out).split("\n"))
             meta[-1]["unit_lines"] = [start_line, end_line]
+            i += 1
+            continue
+        if kind == "constx":
+            # exec const with a contract: `const N: T = EXPR;` -> `pub exec const N: T <spec> { <proof> EXPR }` (EXPR verbatim)
+            words = rest.split()
+            rel, name, opts = words[0], words[1], _parse_opts(words[2:])
+            secs, cur = {"spec": [], "body_start": []}, None
+            i += 1
+            while i < len(lines):
+                m2 = re.match(r"^\s*//@\s+(\w+)\s*(.*)$", lines[i])
+                if m2:
+                    if m2.group(1) == "end":
+                        break
+                    if m2.group(1) not in secs:
+                        raise SpliceError("constx: unknown section " + lines[i])
+                    cur = m2.group(1)
+                elif cur:
+                    secs[cur].append(lines[i])
+                i += 1
+            else:
+                raise SpliceError("unterminated constx block " + name)
+            text = splice_const(repo, rel, name, opts, log, meta)
+            m3 = re.match(r"(?s)^\s*(?:pub(?:\s*\([^)]*\))?\s+)?const\s+(\w+)\s*:\s*([^=]+?)\s*=\s*(.*);\s*$", text)
+            if not m3:
+                raise SpliceError("constx %s: cannot parse const item" % name)
+            out.append("pub exec const %s: %s\n%s\n{\n%s\n    %s\n}" % (m3.group(1), m3.group(2), "\n".join(secs["spec"]), "\n".join(secs["body_start"]), m3.group(3)))
+            log.append({"rule": "exec-const", "fn": name, "where": "const", "before": "const N: T = E;", "after": "exec const N: T ensures .. { proof; E }", "count": 1})
             i += 1
             continue
         if kind == "struct":
